@@ -43,3 +43,87 @@ def _fuel_costs(repo):
             + ", ".join(f"({lean_str(n)}, {v})" for n, v in rows) + "]\n"
             + f"def fuelCostDefault : Nat := {default}")
     return {"rows": rows, "default": default}, lean
+
+
+# ------------------------------------------------------------------------------------------------
+# who touches the tracker?  (hypothesis of the non-interference theorems: nothing but State::new,
+# the track call in eval_impl and State::fuel_levels)
+import os, glob
+
+_TOKENS = [("fuel_tracker", r"\bfuel_tracker\b"), ("FuelTracker", r"\bFuelTracker\b"), ("fuel_levels", r"\bfuel_levels\b"),
+           ("track()", r"\.track\("), ("remaining()", r"\.remaining\(\)"), ("consumed()", r"\.consumed\(\)"),
+           ("env.fuel()", r"\.fuel\(\)"), ("set_fuel", r"\bset_fuel\b"), ("self.fuel", r"\bself\.fuel\b"),
+           ("State::new", r"\bState::new(?:_for_env)?\(")]
+
+
+def _strip_comments(src):
+    out = []
+    for line in src.split("\n"):
+        # good enough for these files: no `//` inside string literals on the lines we look at
+        i = line.find("//")
+        out.append(line if i < 0 else line[:i])
+    return "\n".join(out)
+
+
+def _enclosing(lines, idx):
+    ind = len(lines[idx]) - len(lines[idx].lstrip())
+    for j in range(idx - 1, -1, -1):
+        m = re.match(r"^(\s*)(?:pub(?:\([^)]*\))?\s+)?(?:const\s+|async\s+|unsafe\s+)*(fn|struct|enum|trait|impl)(?:<[^>]*>)?\s+(\w+)", lines[j])
+        if m and len(m.group(1)) < ind:
+            return f"{m.group(2)} {m.group(3)}"
+    return "<top>"
+
+
+@item("C13_FUEL_USES")
+def _fuel_uses(repo):
+    files = sorted(glob.glob(os.path.join(repo, "minijinja/src/**/*.rs"), recursive=True)
+                   + glob.glob(os.path.join(repo, "minijinja-contrib/src/**/*.rs"), recursive=True))
+    rows = []
+    for path in files:
+        rel = os.path.relpath(path, repo)
+        if rel == "minijinja/src/vm/fuel.rs":
+            continue  # the module that is modelled (MJ/Model/Fuel.lean)
+        lines = _strip_comments(open(path, encoding="utf-8").read()).split("\n")
+        for idx, line in enumerate(lines):
+            toks = [name for name, rx in _TOKENS if re.search(rx, line)]
+            if not toks or re.match(r"\s*#\[", line):
+                continue
+            kind = "+".join(toks)
+            if re.search(r"\bfuel_tracker\s*=[^=]", line) or re.search(r"\bself\.fuel\s*=[^=]", line):
+                kind += ":assign"
+            if re.search(r"clone|replace|take\(|swap", line):
+                kind += ":copy-or-move"
+            if re.search(r"\bmut\b", line):
+                kind += ":mut"
+            if re.match(r"\s*(pub(\([^)]*\))?\s+)?fn\s", line):
+                kind += ":def"
+            if re.match(r"\s*use\s", line):
+                kind += ":import"
+            rows.append((rel.replace("minijinja/src/", ""), _enclosing(lines, idx), kind))
+    if not rows:
+        raise KeyError("no fuel tracker uses found at all")
+    rows.sort()
+    lean = ("def fuelUses : List (String × String × String) := [\n  "
+            + ",\n  ".join(f"({lean_str(a)}, {lean_str(b)}, {lean_str(c)})" for a, b, c in rows) + "]")
+    return rows, lean
+
+
+@item("C13_TRACK_SITE")
+def _track_site(repo):
+    src = _strip_comments(read(repo, "minijinja/src/vm/mod.rs"))
+    body = fn_body(src, r"fn eval_impl\s*\(")
+    marks = [("loop", r"\bloop\s*\{"), ("fetch", r"state\.instructions\.get\(pc\)"),
+             ("hook", r"verif_hooks::instructions::on_instruction\(instr\)"),
+             ("borrow", r"if let Some\(ref mut tracker\) = state\.fuel_tracker"),
+             ("track-or-abort", r"ctx_ok!\(\s*tracker\.track\(instr\)\s*\)"), ("dispatch", r"\bmatch instr\s*\{")]
+    found = []
+    for name, rx in marks:
+        ms = list(re.finditer(rx, body))
+        if len(ms) != 1:
+            raise KeyError(f"eval_impl: expected exactly one `{name}` landmark, found {len(ms)}")
+        found.append((ms[0].start(), name))
+    if len(re.findall(r"\.track\(", src)) != 1:
+        raise KeyError("vm/mod.rs: expected exactly one call of track()")
+    found.sort()
+    names = [n for _, n in found]
+    return names, "def fuelTrackSite : List String := [" + ", ".join(lean_str(n) for n in names) + "]"
